@@ -272,7 +272,8 @@ def run(F, R):
         R.check("C11-R4", "request-is-awaited-send", len(snd) == 1 and not nonblocking, "the request is handed over with one awaited SinkExt::send (waits for a busy machine; fails only when it is gone)",
                 "the request is not handed over with one awaited send (%d send, non-waiting operations %s): a busy but live machine can be reported gone, or the request dropped" % (len(snd), nonblocking))
         if snd:
-            a = terms.render(hv, hv.trace_op(snd[0]["args"][1]), W, {})
+            from .. import optnorm as _on11
+            a = terms.render(hv, _on11.simplify(_on11.inline_all(W, hv, hv.trace_op(snd[0]["args"][1]))), W, {})
             R.check("C11-R4", "request-carries-responder", a.startswith("StartUpdateCheck{") and "channel()" in a, a[:100], "the request sent is " + a[:120])
 
     # ---------------------------------------------------------------- R5 select liveness
